@@ -43,6 +43,25 @@ func discoverRoutes(srv interface{ VerifRoutes() chi.Routes }) []routeInfo {
 
 func isProfilingRoute(p string) bool { return strings.HasPrefix(p, "/debug") }
 
+// oddPath: unusual spellings of a route's path, as a client can send them (curl --path-as-is).
+func oddPath(p string, style int) string {
+	switch style {
+	case 1:
+		return "/debug/.." + p
+	case 2:
+		return "/debug/pprof/../.." + p
+	case 3:
+		return "/" + p
+	case 4:
+		return strings.TrimSuffix(p, "/") + "/"
+	case 5:
+		return "/." + p
+	case 6:
+		return "/debug/%2e%2e" + p
+	}
+	return p
+}
+
 // routes that need real time or produce huge output are not requested
 func skipRoute(p string) bool {
 	return strings.Contains(p, "pprof/profile") || strings.Contains(p, "pprof/trace") || strings.HasSuffix(p, "/*") && !strings.HasPrefix(p, "/debug/pprof")
@@ -144,6 +163,7 @@ func (run *Run) execAuthHTTP(w *World, res OpResult) OpResult {
 	case strings.HasSuffix(path, "/*"):
 		path = strings.TrimSuffix(path, "*")
 	}
+	path = oddPath(path, op.PathStyle)
 	req := httptest.NewRequest(rt.Method, path+q, bytes.NewReader(body))
 	tok, _ := makeToken(op, run.t0)
 	if op.Cred != "none" {
@@ -175,6 +195,30 @@ func (m *monState) checkAuthHTTP(si *StepInfo, res *OpResult, pre, post *Snap, e
 	desc := fmt.Sprintf("step %d: %s with credential %s via %s (exp %+ds nbf %+ds, request at +%.3fs)", si.N, res.Route, op.Cred, orStr(op.Transport, "header"), op.ExpS, op.NbfS, res.At.Sub(run.t0).Seconds())
 	run.probe("http_" + map[bool]string{true: "valid", false: "invalid"}[valid])
 	run.reach("auth_table_cells", fmt.Sprintf("%s | %s | %s | profiling=%v | token valid=%v -> %d", res.Route, op.Cred, orStr(op.Transport, "header"), run.sc.Cfg.Profiling, valid, res.Status))
+	if op.PathStyle != 0 && !prof {
+		// an unusual spelling of the path may or may not reach a route; without a valid token it must in no case
+		// be served: anything but 401 / not found / a redirect is a violation, and it must do and reveal nothing
+		run.probe("http_odd_path")
+		if !valid {
+			switch res.Status {
+			case http.StatusUnauthorized, http.StatusNotFound, http.StatusMethodNotAllowed, http.StatusMovedPermanently, http.StatusPermanentRedirect, http.StatusBadRequest:
+			default:
+				run.violate("C14", "r1", "%s (sent as an unusual spelling of the path, style %d): the request carries no valid token but was answered %d", desc, op.PathStyle, res.Status)
+			}
+			if pre.digest() != post.digest() {
+				run.violate("C14", "r2", "%s (unusual path spelling %d): the request without a valid token changed the state of the runner", desc, op.PathStyle)
+			}
+			for _, key := range []string{`"pipelines"`, `"jobs"`, `"stdout"`, `"jobId"`, `"tasks"`} {
+				if strings.Contains(res.Body, key) {
+					run.violate("C14", "r2", "%s (unusual path spelling %d): the response to a request without a valid token carries API data (%s)", desc, op.PathStyle, key)
+				}
+			}
+		}
+		return
+	}
+	if prof && op.PathStyle != 0 {
+		return // odd spellings of profiling paths: no expectation
+	}
 	if prof {
 		if !run.sc.Cfg.Profiling {
 			if res.Status != http.StatusNotFound {
